@@ -4,11 +4,12 @@ import importlib
 PROPS = {
     "C13": {
         "module": "c13",
+        "technique": "static analysis: three-valued abstract interpretation of MIR bodies (verdict plumbing), CFG must-pass rules, who-may-write",
         "explanation": "Static rules over the type-checked MIR of the `ucg` binary and of ucglib decide the structural "
                        "necessary conditions of C13: no false verdict is dropped between do_validate/do_compile/visit_ucg_files "
                        "and the exit status (R57), the assertion collector shared through the Environment is re-initialised "
                        "per file (R58), every path through the assert hook records a result with the right polarity (R59), and "
-                       "verdict polarity / exit(1) wiring (R60). Not decided: the printed text. Added later: R57 Err edges, R58e (build evaluates the file).",
+                       "verdict polarity / exit(1) wiring (R60). Not decided: the printed text. Added later: R57 Err edges, R58e (build evaluates the file). Third session: R57, R60 and the collector half of R59 are decided by three-valued abstract interpretation of the MIR (ucgverif/absint.py): one result is forced negative on one visit and the caller's outcomes on every path that saw it must be negative (sticky), verdict-carrying wrappers and closures are discovered, iterator adaptors and `?` are modelled, an unmodelled sink of the value gives `cannot decide`; R59's hook half runs on the flat view (private helpers spliced in).",
         "assumptions": ["rustc MIR construction and callee resolution (Instance::try_resolve)",
                         "panicking paths are not normal exits (covered by C04)"],
     },
@@ -150,7 +151,7 @@ PROPS = {
                        "Shape variants have a path that does not return TypeErr), by per-variant path analysis; required: VM set "
                        "(mapped kind -> shape) is a subset of the checker set. R21a: map/filter/reduce targets; R21b: the forms the "
                        "translator lowers after `.` on a tuple / resolved import; R21c: copy bases and `not`. Not decided: "
-                       "completeness of the checker in general (value-level rules of narrow, e.g. `[1] + [\"a\"]`). Added later: R21b for partly known left shapes, R21h (F33 known), R21p (with_pos preserves variant and kind of knowledge), R25p (visit/leave pairing).",
+                       "completeness of the checker in general (value-level rules of narrow, e.g. `[1] + [\"a\"]`). Added later: R21b for partly known left shapes, R21h (F33 known), R21p (with_pos preserves variant and kind of knowledge), R25p (visit/leave pairing). Third session: R21a/R21c also require partly known shapes (Hole, Narrowed[Any], Narrowed[candidates]) to pass every dispatch (F45 fixed); R21s parameters are layered over the enclosing scope in FuncDef::derive_shape (F42 fixed); R21d every result-carrying sub-expression (select branches and default, func body, module out) flows into the derived shape (F44 fixed); R21n a callee's open parameter shapes are not narrowed in the caller's table (F43 known).",
         "assumptions": ["runtime kind -> Shape variant map of impl DeriveShape for Value (List->List, Tuple->Tuple, Str->Str)"],
     },
     "C17": {
